@@ -1,9 +1,14 @@
 import Driver.Pixel
+import Driver.Geom
 open Driver
 
 def step (line : String) : String :=
   match line.trimAscii.toString.splitOn " " with
   | "px" :: args => handlePx args
+  | "vb2ts" :: args => handleGeom "vb2ts" args
+  | "nestedvb" :: args => handleGeom "nestedvb" args
+  | "concat" :: args => handleGeom "concat" args
+  | "svgsize" :: args => handleGeom "svgsize" args
   | _ => "bad-op"
 
 partial def loop (h : IO.FS.Stream) (out : IO.FS.Stream) : IO Unit := do
